@@ -239,6 +239,104 @@ class IncrementalBuild(Bounded):
             shutil.rmtree(top, ignore_errors=True)
 
 
+class EveryObjectTracksItsHeaders(Bounded):
+    """A program and a library made of several sources in two languages, each source with a header of its own that
+    build.bfg never mentions: after the first build, changing the header of any one source rebuilds exactly the object
+    of that source (and what is linked from it), whichever position the source has in its step and in the script."""
+    target = 'bfg9000/builtins/compile.py::make_compile'
+    properties = ('C07', 'C03')
+    reason = 'external compiler, generated depfiles and make over a history of edits: runtime contract with the real tools'
+    native_chunk = 1
+    UNITS = [('main.c', 'prog'), ('alpha.c', 'prog'), ('beta.c', 'prog'), ('gamma.cpp', 'prog'), ('delta.cpp', 'prog'),
+             ('lib one.c', 'lib'), ('lib two.c', 'lib')]
+
+    def native_inputs(self, case, alphabet, maxlen, rng, extra=0):
+        yield {'order': 'as-listed'}
+        yield {'order': 'reversed'}
+
+    def native_check(self, case, raw):
+        import glob, shutil, subprocess, tempfile
+        from pyvc.interp import REPO
+        top = tempfile.mkdtemp(prefix='pyvc_units_')
+        try:
+            src, b = top + '/src', top + '/b'
+
+            def w(rel, text):
+                fp = src + '/' + rel
+                _os.makedirs(_os.path.dirname(fp), exist_ok=True)
+                with open(fp, 'w') as f:
+                    f.write(text)
+            units = list(self.UNITS) if raw['order'] == 'as-listed' else list(reversed(self.UNITS))
+            progsrc = [u for u, k in units if k == 'prog']
+            libsrc = [u for u, k in units if k == 'lib']
+            w('build.bfg', "project('p')\nlib = static_library('units', files=%r)\nexecutable('prog', files=%r, libs=[lib])\n"
+              % (libsrc, progsrc))
+            for u, k in self.UNITS:
+                stem = u.rsplit('.', 1)[0]
+                ident = stem.replace(' ', '_')
+                w('%s.h' % stem, '#define VALUE_%s 1\n' % ident)
+                ext = 'extern "C" ' if u.endswith('.cpp') else ''
+                if u == 'main.c':
+                    w(u, '#include "main.h"\nint main(void) { return VALUE_main - 1; }\n')
+                else:
+                    w(u, '#include "%s.h"\n%sint f_%s(void) { return VALUE_%s; }\n' % (stem, ext, ident, ident))
+            _os.makedirs(top + '/bin')
+            for name, mod in (('bfg9000', 'bfg9000.driver'), ('bfg9000-depfixer', 'bfg9000.depfixer')):
+                lp = top + '/bin/' + name
+                with open(lp, 'w') as f:
+                    f.write("#!/bin/sh\nPYTHONPATH=%s exec /venv/bin/python -c 'import sys; sys.argv[0] = \"%s\"; "
+                            "from %s import main; sys.exit(main())' \"$@\"\n" % (REPO, lp, mod))
+                _os.chmod(lp, 0o755)
+            env = dict(_os.environ, PATH=top + '/bin:/venv/bin:' + _os.environ['PATH'])
+            env.pop('MAKEFLAGS', None)
+
+            def run(cmd, **kw):
+                return subprocess.run(cmd, env=env, capture_output=True, text=True, timeout=300, **kw)
+            r = run([top + '/bin/bfg9000', 'configure-into', src, b, '--backend=make', '--no-resolve-packages'])
+            if r.returncode != 0:
+                return self.fail(case, raw, 'configure_succeeds', stderr=r.stderr[-500:])
+            r = run(['make', '-C', b])
+            if r.returncode != 0:
+                return self.fail(case, raw, 'first_build_succeeds', output=(r.stdout + r.stderr)[-600:])
+
+            def objects():
+                out = {}
+                for dp, dn, fn in _os.walk(b):
+                    for f in fn:
+                        if f.endswith('.o'):
+                            out[_os.path.relpath(_os.path.join(dp, f), b)] = _os.stat(_os.path.join(dp, f)).st_mtime_ns
+                return out
+            if len(objects()) != len(self.UNITS):
+                return self.fail(case, raw, 'one_object_per_source', objects=sorted(objects()))
+            # everything built so far is given an old time stamp; the edits get later ones that are still in the past
+            import time
+            t = time.time() - 100000
+            for root in (src, b):
+                for dp, dn, fn in _os.walk(root):
+                    for n in fn:
+                        _os.utime(_os.path.join(dp, n), (t, t))
+            r = run(['make', '-C', b])
+            if r.returncode != 0 or objects() != {o: int(t * 1e9) for o in objects()} and any(
+                    abs(v - t * 1e9) > 1e9 for v in objects().values()):
+                return self.fail(case, raw, 'second_build_does_nothing', output=(r.stdout + r.stderr)[-300:])
+            t += 100
+            for u, k in self.UNITS:
+                stem = u.rsplit('.', 1)[0]
+                before = objects()
+                _os.utime(src + '/%s.h' % stem, (t, t))
+                t += 100
+                r = run(['make', '-C', b])
+                after = objects()
+                changed = sorted(o for o in after if after[o] != before.get(o))
+                want = [o for o in after if _os.path.basename(o) == stem + '.o']
+                if r.returncode != 0 or changed != sorted(want) or len(want) != 1:
+                    return self.fail(case, raw, 'changed_header_rebuilds_exactly_the_object_that_includes_it', header=stem + '.h',
+                                     rebuilt=changed, expected=want, output=(r.stdout + r.stderr)[-300:])
+            return True
+        finally:
+            shutil.rmtree(top, ignore_errors=True)
+
+
 class MultiOutputStep(Bounded):
     """A step with several outputs (a generated header and a generated source) whose outputs are consumed by different
     objects: after the generator's input changes, ONE run of make rebuilds every object that consumes an output (the
@@ -327,4 +425,4 @@ class MultiOutputStep(Bounded):
 
 
 def registry():
-    return [DepfixerReference(), CompilerCall(), IncrementalBuild(), MultiOutputStep()]
+    return [DepfixerReference(), CompilerCall(), IncrementalBuild(), EveryObjectTracksItsHeaders(), MultiOutputStep()]
